@@ -16,8 +16,12 @@
    witnesses are now positive theorems (C08_let_parallel, C08_binder_shadows_definition).  Proved parts:
    the tokenizer on plain tokens (lex_agrees_partial) and agreement with the standard on every
    text that is a print-out the reader maps back to its term (parse_agrees_printed_partial; the
-   round trip itself is C09's theorem).  The remaining instances of parse_agrees are carried by
-   the correspondence (model = implementation) and the independent reader harness/c08_ref.py. *)
+   round trip itself is C09's theorem); the stack machine of the term reader against a recursive
+   reading for atoms, applications, quantifiers, indexed identifiers and let (C08_machine_simple);
+   and agreement with the standard, by induction on the s-expression, on Core + parallel let with
+   shadowing (C08_parse_agrees_core_partial, C08_elab_agrees_core).  The remaining instances of
+   parse_agrees are carried by the correspondence (model = implementation) and the independent
+   reader harness/c08_ref.py. *)
 From Coq Require Import List ZArith Bool String Ascii.
 From PySMT.core Require Import Syntax Sem SmtStd.
 From PySMT.models Require Import TypeChecker SmtLex SmtParser SmtPrinter RoundTrip.
@@ -46,14 +50,24 @@ Print Assumptions C08_parse_agrees_printed_partial.
 
 (* ---- the reader against std_eval DIRECTLY, by induction on the s-expression (any depth).
    C08_machine_simple: the stack machine does what the recursive reading [elab] does, for every
-   s-expression built from atoms, applications, quantifiers (any binder list) and applications of an
-   indexed identifier, whatever the stack, the state and the tokens that follow.  C08_parse_agrees_core_partial: on the Core fragment [core] (true, false, declared Bool
-   constants, and / or with >= 2 arguments, =>, not over a non-negation, ite and = on Booleans),
-   whenever that reading succeeds the machine returns its result, a term of sort Bool that denotes
-   what core/SmtStd.v says the text denotes.  Outside the proved fragment: arithmetic and every
-   operator that goes through fix_real (needs the sorted induction: std_eval is untyped and the
-   parser may coerce Int constants), let (its handler is not yet in the machine lemma), quantifiers in
-   the std_eval theorem, define-fun.  Those stay carried by the correspondence and harness/c08_ref.py. *)
+   s-expression built from atoms, applications, quantifiers (any binder list), applications of an
+   indexed identifier and let with any number of bindings, whatever the stack, the state and the
+   tokens that follow (e: the iterations a let reserves for reading its bound terms).
+   C08_parse_agrees_core_partial: on the fragment Core + let [corelb] (plain names - declared Bool
+   constants, true, false, let-bound names -, and / or with >= 2 arguments, =>, not over anything
+   (Not(Not a) is a), ite and = on Booleans, and let with distinct plain names, shadowing allowed),
+   in a state where the free names of the text mean the same thing for the reader (top of the
+   cache stack) and for the standard, whenever that reading succeeds the machine returns its
+   result, a term of sort Bool that denotes what core/SmtStd.v says the text denotes - for a let,
+   the standard's PARALLEL reading (bound terms in the outer environment), although the reader
+   binds names one by one and some of them early (parser.py's extension for a name that means
+   nothing outside: proved never to be looked up by a later bound term of the fragment) - and the
+   cache stacks are what they were.  C08_parse_agrees_let_example: (let ((p q) (q p)) ...) with an
+   inner let shadowing p is read with p and q swapped.
+   Outside the proved fragment: arithmetic and every operator that goes through fix_real (needs
+   the sorted induction: std_eval is untyped and the parser may coerce Int constants), quantifiers
+   in the std_eval theorem, define-fun.  Those stay carried by the correspondence and
+   harness/c08_ref.py. *)
 Theorem C08_machine_simple : forall x, simpleb x = true ->
   forall fuel' stk s i s' rest,
     elab x s = ROk i s' -> toks s = (flatten x ++ rest)%list ->
@@ -61,18 +75,39 @@ Theorem C08_machine_simple : forall x, simpleb x = true ->
 Proof. exact machine_simple. Qed.
 Print Assumptions C08_machine_simple.
 
-Theorem C08_parse_agrees_core_partial : forall Sg D,
-  SmtParser.alookup "true" D = Some (ITerm TTrue) -> SmtParser.alookup "false" D = Some (ITerm TFalse) ->
-  forall x, core Sg D x ->
-  forall s i s' rest k, inv D s -> toks s = (flatten x ++ rest)%list -> elab x s = ROk i s' ->
-    get_expr (cost x + k) [] s = ROk (Some i) s' /\ toks s' = rest /\ inv D s' /\
+Theorem C08_parse_agrees_core_partial : forall Sg (Sc : scope) x,
+  corelb x = true ->
+  (forall n, In n (fn x) -> name_agrees Sg (fun _ => nil) Sc n) ->
+  forall s i s' rest k, st_ok Sc s -> toks s = (flatten x ++ rest)%list -> elab x s = ROk i s' ->
+    get_expr (cost x + k) [] s = ROk (Some i) s' /\ toks s' = rest /\ st_ok Sc s' /\
     exists t, i = ITerm t /\ tc t = Some TBool /\
               forall I, wf_interp I -> std_eval Sg I x = Some (eval I t).
 Proof. exact parse_agrees_core_partial. Qed.
 Print Assumptions C08_parse_agrees_core_partial.
 
-Theorem C08_parse_agrees_core_hypotheses_satisfiable : core ex_sig ex_D ex_sexp.
+(* the recursive reading against the standard in any environment R (one per interpretation), any
+   cache stacks Sc: the statement the induction proves *)
+Theorem C08_elab_agrees_core : forall Sg x, corelb x = true ->
+  forall R Sc s i s', heads_free R -> (forall n, In n (fn x) -> name_agrees Sg R Sc n) ->
+    st_ok Sc s -> elab x s = ROk i s' ->
+    st_ok Sc s' /\ exists t, i = ITerm t /\ tc t = Some TBool /\
+      forall I, wf_interp I -> seval Sg I (R I) x = Some (eval I t).
+Proof.
+  intros Sg x Hc R Sc s i s' HF Hn Hs He.
+  destruct (elab_agrees_core Sg x Hc R Sc s i s' HF Hn Hs He) as (H1 & t & -> & (Htc & _) & Hsem).
+  split; [exact H1|]. exists t. split; [reflexivity|]. split; [exact Htc | exact Hsem].
+Qed.
+
+Theorem C08_parse_agrees_core_hypotheses_satisfiable :
+  corelb ex_sexp = true /\ forall n, In n (fn ex_sexp) -> name_agrees ex_sig (fun _ => nil) ex_scope n.
 Proof. exact ex_core. Qed.
+
+Theorem C08_parse_agrees_let_example :
+  corelb ex_let = true /\
+  (forall n, In n (fn ex_let) -> name_agrees ex_sig (fun _ => nil) ex_scope n) /\
+  (exists s', get_expression (ex_state ex_let) = ROk (Some (ITerm ex_let_term)) s') /\
+  forall I, wf_interp I -> std_eval ex_sig I ex_let = Some (eval I ex_let_term).
+Proof. exact ex_let_reads. Qed.
 
 (* simultaneous let-bindings: repaired in parser.py; the former counter-example and the whole
    family of two-binding lets over x, y, true, false are read as the standard says *)
@@ -105,6 +140,15 @@ Theorem C08_definefun_capture_refuted :
     exists I, std_eval (sig_of [("y", TBool)]) I capture_expanded = Some (VBool true).
 Proof. exact definefun_capture_refuted. Qed.
 Print Assumptions C08_definefun_capture_refuted.
+
+(* the same capture with no definition at all: a let-bound term under a quantifier over one of its
+   symbols (same open finding; here core/SmtStd.v gives the meaning of the text directly) *)
+Theorem C08_let_capture_refuted :
+  exists t,
+    parse_model let_capture_text = Ok [decl "a" TBool; mkC "assert" [ATerm t]] /\
+    (forall I, eval I t = VBool false) /\
+    exists I, std_eval (sig_of [("a", TBool)]) I let_capture_sexp = Some (VBool true).
+Proof. exact let_capture_refuted. Qed.
 
 (* text that cannot be handled is read as something else *)
 Theorem C08_undeclared_identifier_refuted :
